@@ -52,7 +52,7 @@ def cases(draw):
     p = PROFILE
     cfg = draw(gen.config(p))
     mode = draw(st.sampled_from(["none", "clear", "clear", "clear", "disabled", "disabled"]))
-    delta = draw(st.sampled_from([0.508, 1.27, 2.54]))
+    delta = draw(st.sampled_from([0.508, 1.27, 2.54, 6.35, 12.7, 30.0]))     # (long Bowden retractions, a filament unload)
     fw = draw(st.booleans())
     abstract = draw(gen.ops(p))
     cands = [draw(gen.region(k, False)) for k in range(draw(st.integers(1, 3)))] if mode != "none" else []
